@@ -20,7 +20,7 @@ RULE = ("schemas with mutable defaults on typed lists/dicts (scalars, dict items
         "load of the unchanged files; hand-made argparse namespaces (known options, options a dynamic or fixed section "
         "does not declare) go through cmdline_args_override; non-trivial = >= 3 "
         "operations applied with >= 1 in-place mutation or dynamic field; distinct = distinct (schema, history)")
-REQUIRED = ("schemas_with_encoded_values_in_default_items", "hand_written_documents_with_unknown_names", "inner_containers_changed_in_place", "asdict_results_changed_in_place", "failed_include_loads", "foreign_method_secrets_loaded", "schemas_with_environment_prefix", "resets_then_inplace_mutations", "cmdline_namespaces_applied", "same_document_loads", "cross_assignments", "serialisations_applied", "twin_before_checks", "twin_after_checks", "fingerprint_checks", "shared_item_checks", "ops_applied",
+REQUIRED = ("asdict_with_computed_fields", "schemas_with_encoded_values_in_default_items", "hand_written_documents_with_unknown_names", "inner_containers_changed_in_place", "asdict_results_changed_in_place", "failed_include_loads", "foreign_method_secrets_loaded", "schemas_with_environment_prefix", "resets_then_inplace_mutations", "cmdline_namespaces_applied", "same_document_loads", "cross_assignments", "serialisations_applied", "twin_before_checks", "twin_after_checks", "fingerprint_checks", "shared_item_checks", "ops_applied",
             "inplace_mutations", "dynamic_fields_added")
 ASSUMPTIONS = ["deep mutation inside an *untyped* default (ListField(default=[[1]]), Field(default=[...])) is out of "
                "scope: the property quantifies over mutable defaults on typed fields"]
@@ -58,6 +58,9 @@ def generate(rng, ctx):
                 node["key"] = key
                 schema["fields"].append(node)
                 nested.append((key, x))
+    if rng.random() < 0.3:
+        k = gen.pick_keys(rng, 1, avoid={ch["key"] for ch in schema["fields"]})[0]
+        schema["fields"].append({"kind": "field", "key": k, "family": "virtual", "params": {"returns": "v"}})
     if rng.random() < 0.4 and all(ch["key"] != "lc0" for ch in schema["fields"]):
         # a list of configurations whose declared default gives, as mappings, items that hold typed lists of values with
         # an on-disk form of their own (bytes as base64 / hex text) - also one level further down
@@ -381,7 +384,15 @@ def run(case, ctx, res):
             # must not reach the configuration
             try:
                 a_before = Snapshot(a)
-                handed = cc.asdict(a)
+                handed = cc.asdict(a, virtual=True) if idx % 8 == 1 else cc.asdict(a)
+                if idx % 8 == 1:
+                    res.count("asdict_with_computed_fields")
+                    # the computed fields of the root are part of it, and only of it (fields by kind: get_fields)
+                    virt = [k for k, _f in cc.get_fields(a, cc.VirtualField)]
+                    if set(virt) - set(handed) or (set(virt) & set(cc.asdict(a))):
+                        res.viol("M-twin", "asdict-virtual-keys", "step %d: computed fields %r; asdict(virtual=True) has %r, asdict() has %r" % (
+                            idx, virt, sorted(set(virt) & set(handed)), sorted(set(virt) & set(cc.asdict(a)))))
+                        return
             except Exception:
                 handed = None
             if isinstance(handed, dict):
